@@ -7,6 +7,10 @@ Stages: proofs (Properties_C03.v) ->
                     to ctx.generate_from_schema vs Model_C03.string_plan / array_plan ->
   correspondence 3: the label tuples (kind, case mode, components) and the content of every case yielded by
                     _iter_coverage_cases on generated operations vs Model_C03.coverage_cases ->
+  correspondence 4: operations that declare the same parameter name at several locations with different schemas: the schemas
+                    _combination_schema hands to _yield_negative vs Model_C03.combo_plan CacheNone (sentinel: CacheByName), the
+                    numeric negatives of the combination cases vs combo_negative_values; case-level oracle on the typed content
+                    of every case against the schema DECLARED for each (name, location) ->
   oracle search: every yielded value validated with python-jsonschema against its schema according to its label
                  (author examples/defaults exempt); case label vs the labels of the parts the case carries ->
   oracle at broken ties: whenever a correspondence stage disagrees on an input, the same oracle on the real code at that
@@ -923,7 +927,8 @@ def gen_operation(rng):
     for _ in range(n):
         loc = rng.choice(["query", "query", "query", "header", "cookie", "path"])
         name = f"p{rng.randrange(8)}"
-        if any(nm == name for _, nm in used):
+        # a parameter is identified by (name, location): the same name may come back at another location (with another schema)
+        if (loc, name) in used or (any(nm == name for _, nm in used) and rng.random() < 0.5):
             continue
         used.add((loc, name))
         schema = copy.deepcopy(rng.choice(PARAM_SCHEMAS))
@@ -1184,7 +1189,7 @@ def content_matches(operation, mcase, icase, names, medias, values) -> str | Non
             if rec[p["idx"]][1] != p["mode"]:
                 return f"{container}.{name}: label of value #{p['idx']} differs"
             fuzzy = fuzzy or _has_float(value) or rec[p["idx"]][2].startswith(RANDOM_DRAWS)
-            if mcase["sig"][0] == "duplicate" and mcase["sig"][1] == name:
+            if mcase["sig"][0] == "duplicate" and mcase["sig"][1] == name and container == "query":  # the identity is (name, location)
                 value = [value, value]
             expected[name] = value
         actual = getattr(case, container)
@@ -1361,6 +1366,334 @@ def _stage_cases(chk, n):
         compare_operation(chk, ctx, val, stats)
     operation_value_oracle(chk, ctxs, stats)
     chk.stages["correspondence_cases"] = {"operations": len(descs), "compared": len(ctxs), **stats}
+
+
+# ----------------------------------------------------------------------------------------
+# part 3b: a parameter is identified by (name, location) - the same name declared in several locations
+# ----------------------------------------------------------------------------------------
+SHARED_INT = [
+    {"type": "integer"},
+    {"type": "integer", "maximum": 10},
+    {"type": "integer", "minimum": 5},
+    {"type": "integer", "minimum": 1, "maximum": 3},
+    {"type": "integer", "maximum": -1},
+    {"type": "integer", "minimum": 0, "maximum": 100},
+    {"type": "integer", "minimum": -5, "maximum": 5},
+    {"type": "integer", "minimum": 20},
+    {"type": "integer", "maximum": 0},
+    {"type": "integer", "minimum": 2, "maximum": 2},
+    {"type": "integer", "maximum": 7, "minimum": -7},
+]
+SHARED_OTHER = [
+    {"type": "string", "maxLength": 3},
+    {"type": "string", "minLength": 2, "maxLength": 5},
+    {"type": "boolean"},
+    {"type": "string", "enum": ["a", "b"]},
+    {"type": "integer", "enum": [1, 2, 3]},
+    {"type": "string"},
+    {"type": "string", "minLength": 1},
+]
+SHARED_NAMES = ["id", "key", "n", "a", "b", "c", "d"]
+
+
+def gen_shared_operation(rng):
+    """An operation in which the same parameter name is declared in 2-3 locations with DIFFERENT schemas (other bounds, another
+    type, an enum, required in one place and optional in the other), every location with a mix of required and optional parameters
+    (0, 1 or several optional ones), so that every block of _iter_coverage_cases runs: parameter cases, duplicates, missing required,
+    only-required, required + one optional, larger subsets."""
+    locs = rng.sample(["query", "header", "cookie"], rng.choice([2, 2, 3]))
+    with_path = rng.random() < 0.2
+    shared = rng.sample(SHARED_NAMES[:4], rng.choice([1, 1, 2]))
+    params = []
+    for name in shared:
+        family = SHARED_INT if rng.random() < 0.7 else SHARED_INT + SHARED_OTHER + SHARED_OTHER
+        picks = rng.sample(family, len(locs) + 1)  # pairwise different
+        if with_path and name == shared[0]:
+            params.append({"name": name, "in": "path", "required": True, "schema": copy.deepcopy(rng.choice(SHARED_INT[:4] + SHARED_OTHER[:5]))})
+        for loc, schema in zip(locs, picks):
+            params.append({"name": name, "in": loc, "required": rng.random() < 0.5, "schema": copy.deepcopy(schema)})
+    for loc in locs:
+        others = [nm for nm in SHARED_NAMES if nm not in shared]
+        for name in rng.sample(others, rng.choice([1, 1, 2, 2, 3])):
+            schema = gen_signed_multiple_schema(rng, safe=True) if rng.random() < 0.15 else rng.choice(SHARED_INT + SHARED_OTHER)
+            params.append({"name": name, "in": loc, "required": rng.random() < 0.4, "schema": copy.deepcopy(schema)})
+        here = [p for p in params if p["in"] == loc]
+        if rng.random() < 0.9:  # a mix: at least one required and one optional parameter at this location
+            if not any(p["required"] for p in here):
+                rng.choice(here)["required"] = True
+            if all(p["required"] for p in here):
+                rng.choice(here)["required"] = False
+    rng.shuffle(params)
+    bodies = [["application/json", copy.deepcopy(rng.choice([BODY_SCHEMAS[0], BODY_SCHEMAS[4], {"type": "integer", "minimum": 1, "maximum": 3}]))]] if rng.random() < 0.2 else []
+    method = rng.choice(["get", "post", "put"])
+    others = [m for m in ALL_METHODS if m != method and rng.random() < 0.2]
+    return {"params": params, "bodies": bodies, "method": method, "other_methods": others, "modes": rng.choice(["PN", "PN", "PN", "N", "P"])}
+
+
+@contextmanager
+def observing_cases():
+    """Observe (not alter) _iter_coverage_cases: the un-serialised kwargs of every TemplateValue (what the case carries BEFORE the
+    values are turned into strings for the wire) and every schema _yield_negative hands to cover_schema_iter."""
+    import sys
+
+    from schemathesis.generation.hypothesis import builder
+
+    coverage, _ = _cov()
+    rec = {"raw": None, "subschemas": []}
+    original_serialize = builder.Template._serialize
+    original_iter = coverage.cover_schema_iter
+
+    def serialize(self, kwargs):
+        rec["raw"] = copy.deepcopy(kwargs)
+        return original_serialize(self, kwargs)
+
+    def cover(ctx, schema, seen=None):
+        if sys._getframe(1).f_code.co_name == "_yield_negative":
+            rec["subschemas"].append((ctx.location, copy.deepcopy(schema)))
+        return original_iter(ctx, schema, seen)
+
+    builder.Template._serialize = serialize
+    coverage.cover_schema_iter = cover
+    try:
+        yield rec
+    finally:
+        builder.Template._serialize = original_serialize
+        coverage.cover_schema_iter = original_iter
+
+
+def observed_cases(operation, desc):
+    """impl_cases + for every case the raw (typed) content of its containers; the subschemas of the combination blocks."""
+    from schemathesis.generation import GenerationMode as GM
+    from schemathesis.generation.hypothesis.builder import _iter_coverage_cases
+
+    out, end = [], "Completed"
+    with observing_cases() as rec:
+        try:
+            for case in _iter_coverage_cases(operation, modes_of(desc["modes"])):
+                d = case.meta.phase.data
+                out.append(
+                    {
+                        "description": d.description,
+                        "location": d.parameter_location,
+                        "parameter": d.parameter,
+                        "mode": "N" if case.meta.generation.mode == GM.NEGATIVE else "P",
+                        "method": case.method,
+                        "raw": rec["raw"],
+                    }
+                )
+        except KeyError:
+            end = "RaisesKeyError"
+        except Exception as exc:  # noqa: BLE001
+            end = "raises " + type(exc).__name__
+    return out, end, rec["subschemas"]
+
+
+def declared_parameters(operation):
+    """(location, name) -> the schema DECLARED for that identity (parameter.as_json_schema) and its required flag."""
+    return {(p.location, p.name): {"schema": p.as_json_schema(operation), "required": bool(p.is_required) or p.location == "path"} for p in operation.iter_parameters()}
+
+
+def case_reasons(case, desc, declared, body_schemas):
+    """Every reason the property accepts for a NEGATIVE label, decided from the content of the case and the DECLARED schemas only:
+    an undocumented method, a removed required parameter, a duplicated / undeclared parameter, a part that does not conform to the
+    schema declared for its (name, location).  Second result: a verdict was not available (schema outside the dialect)."""
+    reasons, unknown = [], False
+    raw = case["raw"] or {}
+    if case["method"].upper() != desc["method"].upper():
+        reasons.append("undocumented method")
+    for loc in LOCS:
+        container = raw.get(CONTAINER[loc]) or {}
+        for (l, name), d in declared.items():
+            if l != loc:
+                continue
+            if name not in container:
+                if d["required"]:
+                    reasons.append(f"required {loc} parameter {name!r} is missing")
+                continue
+            value = container[name]
+            if loc == "query" and case["description"].startswith("Duplicate `") and case["parameter"] == name and isinstance(value, list) and len(value) == 2:
+                reasons.append(f"query parameter {name!r} is duplicated")
+                continue
+            verdict = is_valid(d["schema"], value)
+            if verdict is None:
+                unknown = True
+            elif not verdict:
+                reasons.append(f"{loc} parameter {name!r} = {value!r} violates its declared schema")
+        for name in container:
+            if (loc, name) not in declared:
+                reasons.append(f"{loc} parameter {name!r} is not declared")
+    if "body" in raw and raw.get("media_type") in body_schemas:
+        verdict = is_valid(body_schemas[raw["media_type"]], raw["body"])
+        if verdict is None:
+            unknown = True
+        elif not verdict:
+            reasons.append("the body violates its declared schema")
+    return reasons, unknown
+
+
+def shared_case_oracle(chk, desc, declared, cases, stats):
+    """The property at case level, against the schemas declared for each (name, location): a case labelled negative carries a reason,
+    a case labelled positive carries none, and the part a description points at is invalid for ITS OWN declared schema."""
+    body_schemas = dict((media, schema) for media, schema in desc["bodies"])
+    for c in cases:
+        reasons, unknown = case_reasons(c, desc, declared, body_schemas)
+        stats["cases_judged"] += 1
+        brief = {"operation": desc, "case": c["description"], "at": [c["location"], c["parameter"]], "label": c["mode"], "carries": {k: v for k, v in (c["raw"] or {}).items() if k != "media_type"}}
+        body_tail = c["location"] == "body" and c is not next(x for x in cases if x["location"] == "body" and x["parameter"] == c["parameter"])
+        if c["mode"] == "N" and not reasons and not unknown:
+            chk.fail(
+                "case labelled negative although every part conforms to the schema declared for its (name, location), nothing is missing, duplicated or undeclared and the method is documented",
+                brief,
+                region=None,
+            )
+            stats["mislabelled"] += 1
+        elif c["mode"] == "P" and reasons:
+            chk.fail("case labelled positive, but: " + "; ".join(reasons[:3]), brief, region="body_tail" if body_tail else None)
+            stats["mislabelled"] += 1
+        # the part the description points at
+        loc, name = c["location"], c["parameter"]
+        m = WRAPPED.match(c["description"])
+        pointed = None
+        if c["mode"] == "N" and loc in CONTAINER and m and m.group(1) == name and "invalid" in c["description"].split("'")[0]:
+            pointed = m.group(2)
+        elif c["mode"] == "N" and loc in CONTAINER and name is not None and not c["description"].startswith(("Duplicate `", "Missing `", "Object with", "Unspecified")):
+            pointed = c["description"]
+        if pointed is not None and (loc, name) in declared:
+            container = (c["raw"] or {}).get(CONTAINER[loc]) or {}
+            if name in container:
+                verdict = is_valid(declared[(loc, name)]["schema"], container[name])
+                stats["pointed_parts_validated"] += 1
+                if verdict is True:
+                    chk.fail(
+                        f"{loc} parameter {name!r} is presented as invalid ({pointed!r}) but conforms to the schema declared for ({name!r}, {loc})",
+                        {**brief, "declared_schema": declared[(loc, name)]["schema"], "value": container[name]},
+                        region=None,
+                    )
+                    stats["mislabelled"] += 1
+
+
+def c_dparams(desc, operation, declared, rank, sids, in_template):
+    out = []
+    for p in operation.iter_parameters():
+        schema = declared[(p.location, p.name)]["schema"]
+        sid = sids[json.dumps(schema, sort_keys=True, default=str)]
+        keys = c_keys(schema) if is_plain_numeric(schema) else clist([], "nkey")
+        out.append(
+            "{| dp_loc := %s; dp_name := %s; dp_required := %s; dp_in_template := %s; dp_schema := (%s, %s) |}"
+            % (LOC_C[p.location], cN(rank[p.name]), cbool(bool(p.is_required)), cbool(in_template[(p.location, p.name)]), cN(sid), keys)
+        )
+    return clist(out, "(dparam (N * list nkey))")
+
+
+def check_shared_operation(chk, desc):
+    try:
+        operation = build_operation(desc)
+        declared = declared_parameters(operation)
+        coverage, _ = _cov()
+        in_template = {}
+        for p in operation.iter_parameters():
+            ctx = coverage.CoverageContext(location=p.location, generation_modes=modes_of(desc["modes"]))
+            in_template[(p.location, p.name)] = next(iter(coverage.cover_schema_iter(ctx, p.as_json_schema(operation, update_quantifiers=False))), None) is not None
+    except Exception as exc:  # noqa: BLE001
+        chk.count(f"shared-names:rejected:{type(exc).__name__}")
+        return None
+    names = sorted({name for _, name in declared})
+    rank = {nm: i for i, nm in enumerate(names)}
+    sids = {}
+    for d in declared.values():
+        sids.setdefault(json.dumps(d["schema"], sort_keys=True, default=str), len(sids))
+    ps = c_dparams(desc, operation, declared, rank, sids, in_template)
+    pos, neg = cbool("P" in desc["modes"]), cbool("N" in desc["modes"])
+    view = "(fun ss => (ss_loc ss, ss_props ss, ss_required ss))"
+    expr = (
+        f"(let ps := {ps} in (map {view} (combo_plan CacheNone {pos} {neg} ps), map {view} (combo_plan CacheByName {pos} {neg} ps), "
+        f"flat_map (fun ss => map (fun x => (ss_loc ss, x)) (combo_negative_values snd ss)) (combo_plan CacheNone {pos} {neg} ps)))"
+    )
+    return {"desc": desc, "operation": operation, "declared": declared, "names": names, "rank": rank, "sids": sids, "expr": expr}
+
+
+def canon_plan(plan):
+    return [[C_LOC[loc], [[name, sid] for name, (sid, _) in props], sorted(required)] for loc, props, required in plan]
+
+
+def compare_shared_operation(chk, ctx, val, stats):
+    desc, operation, declared, rank, sids = ctx["desc"], ctx["operation"], ctx["declared"], ctx["rank"], ctx["sids"]
+    cases, end, subschemas = observed_cases(operation, desc)
+    same_name = {}
+    for loc, name in declared:
+        same_name.setdefault(name, set()).add(json.dumps(declared[(loc, name)]["schema"], sort_keys=True, default=str))
+    clash = sum(1 for v in same_name.values() if len(v) > 1)
+    chk.seen({"shared-names": desc}, clash >= 1 and len(cases) >= 3)
+    chk.count(f"shared-names:modes={desc['modes']}")
+    chk.count(f"shared-names:names-with-different-schemas={clash}")
+    chk.count(f"shared-names:combination-subschemas={min(len(subschemas), 6)}{'+' if len(subschemas) > 6 else ''}")
+    if end != "Completed":
+        chk.count("shared-names:" + end)
+    stats["cases"] += len(cases)
+    # tie: the subschemas handed to _yield_negative vs combo_plan (policy of the code)
+    val = unsym(val)
+    plan, plan_by_name, values = canon_plan(val[0]), canon_plan(val[1]), val[2]
+    impl_plan = []
+    for loc, sub in subschemas:
+        props = [[rank.get(name, 999), sids.get(json.dumps(s, sort_keys=True, default=str), 999)] for name, s in (sub.get("properties") or {}).items()]
+        impl_plan.append([loc, props, sorted(rank.get(name, 999) for name in sub.get("required") or [])])
+    if end == "Completed":
+        if impl_plan != plan:
+            if impl_plan == plan_by_name:
+                stats["like_name_keyed_cache"] += 1
+            first = next((i for i, (a, b) in enumerate(zip(impl_plan, plan)) if a != b), min(len(impl_plan), len(plan)))
+            tie_broken(
+                chk,
+                "subschemas of the parameter combination blocks (_combination_schema) vs combo_plan CacheNone",
+                desc,
+                {"n": len(impl_plan), "names": ctx["names"], "first_difference_at": first, "there": impl_plan[first : first + 1], "subschema": [s for _, s in subschemas[first : first + 1]]},
+                {"n": len(plan), "there": plan[first : first + 1]},
+                [],
+            )
+        else:
+            stats["plans_agree"] += 1
+            stats["subschemas"] += len(plan)
+            # numeric negatives of the combination cases vs combo_negative_values
+            impl_values = []
+            for c in cases:
+                m = WRAPPED.match(c["description"])
+                if c["mode"] == "N" and m and m.group(2) in NEGDESC and c["location"] in CONTAINER:
+                    container = (c["raw"] or {}).get(CONTAINER[c["location"]]) or {}
+                    if m.group(1) in container and isinstance(container[m.group(1)], int):
+                        impl_values.append([c["location"], rank.get(m.group(1), 999), canon_py(container[m.group(1)]), NEGDESC[m.group(2)]])
+            model_values = []
+            for loc, (name, (v, d, _k)) in values:
+                v = popt(v)
+                if d != "NNonMultiple" and v is not None:
+                    model_values.append([C_LOC[loc], name, [v[0], v[1]], d])
+            if impl_values != model_values:
+                tie_broken(chk, "numeric negatives of the combination cases vs combo_negative_values", desc, impl_values[:12], model_values[:12], [])
+            else:
+                stats["negative_values_compared"] += len(impl_values)
+    shared_case_oracle(chk, desc, declared, cases, stats)
+    if cases and subschemas:
+        chk.sample({"shared-names": desc["params"], "modes": desc["modes"], "n_cases": len(cases), "subschemas": [[loc, sorted(s["properties"])] for loc, s in subschemas[:4]]})
+
+
+def stage_shared_names(chk, n):
+    """The same name in several locations: combo_plan vs the subschemas of the real combination blocks, and the property oracle at
+    case level against the schemas declared for each (name, location)."""
+    rng = chk.rng
+    descs = [json.loads(p.read_text()) for p in sorted((core.VERIF / "corpus" / "C03").glob("shared_*.json"))]
+    n_corpus = len(descs)
+    descs += [gen_shared_operation(rng) for _ in range(n)]
+    stats = {"cases": 0, "cases_judged": 0, "mislabelled": 0, "pointed_parts_validated": 0, "plans_agree": 0, "subschemas": 0, "negative_values_compared": 0, "like_name_keyed_cache": 0}
+    with deterministic_draws():
+        ctxs = [c for c in (check_shared_operation(chk, d) for d in descs) if c is not None]
+        model = core.coq_eval(IMPORTS, [c["expr"] for c in ctxs], shard=40)
+        for ctx, val in zip(ctxs, model):
+            compare_shared_operation(chk, ctx, val, stats)
+    if stats["like_name_keyed_cache"]:
+        chk.notes.append(
+            f"{stats['like_name_keyed_cache']} operations build their combination subschemas exactly as combo_plan CacheByName does (the sentinel of "
+            "C03_combo_cache_by_name_refuted: a schema cache keyed by the parameter name and shared by the locations)"
+        )
+    chk.stages["shared_names_across_locations"] = {"operations": len(descs), "corpus": n_corpus, "compared": len(ctxs), **stats}
 
 
 # ----------------------------------------------------------------------------------------
@@ -1851,9 +2184,11 @@ def run(chk: core.Check):
     chk.trusted = [
         "Coq 8.16.1 kernel, vm_compute (witness lemmas and model evaluation); no native_compute; no axioms",
         "hand-written model theories/C03/Model_C03.v of closest_multiple_greater_than, _positive_number, the numeric/length keys of "
-        "cover_schema_iter, the request plans of _positive_string/_positive_array, the positive values under anyOf/oneOf, Template and _iter_coverage_cases",
+        "cover_schema_iter, the request plans of _positive_string/_positive_array, the positive values under anyOf/oneOf, Template, _iter_coverage_cases and "
+        "the subschemas of its parameter combination blocks (parameters keyed by (name, location))",
         "correspondence harness harness/props/c03.py (encoders, Coq output parser, canonicalisers, generators, the observation wrapper "
-        "around CoverageContext.generate_from_schema, the reconstruction of _combination_schema)",
+        "around CoverageContext.generate_from_schema, the reconstruction of _combination_schema, the observation wrappers around Template._serialize "
+        "(typed content of a case before string coercion) and around the cover_schema_iter calls of _yield_negative)",
         "python-jsonschema 4.26 (Draft4Validator for boolean exclusive bounds, Draft202012Validator otherwise) as the validity oracle",
     ]
     chk.assumptions = [
@@ -1861,13 +2196,16 @@ def run(chk: core.Check):
         "cover_schema_iter yields positive values only when POSITIVE is requested and negative ones only when NEGATIVE is (checked on every recorded generator)",
         "integers only: float bounds / float multipleOf are outside the model",
         "the label sequence of each parameter/body generator is recorded by the harness by calling cover_schema_iter itself",
+        "the schema DECLARED for a parameter identity (name, location) is what parameter.as_json_schema(operation) returns for that parameter object, called by the harness itself",
     ]
     chk.rule = (
         "one PRNG (VERIF_SEED): integer/number schemas with random subsets and orders of minimum/maximum/exclusive*(numeric or boolean)/"
         "multipleOf/example/examples/default over a pool rich in 0 and equal bounds; string schemas with min/maxLength around 0 and BUFFER_SIZE; "
         "array schemas (corpus arr_*.json + random, min/maxItems over 0, equal and n/n+1 bounds); operations with 0-5 parameters over 4 locations "
         "(incl. typeless and empty schemas, zero/equal-bounded strings, integers, query arrays), 0-2 bodies (incl. bounded schemas nested in objects/arrays), "
-        "extra methods, 3 generation modes; a systematic grid of the four bounded keyword pairs x zero/equal bound combinations x nestings; "
+        "extra methods, 3 generation modes (half of the repeated names come back at another location); operations in which 1-2 names are declared in "
+        "2-3 of query/header/cookie (sometimes also path) with pairwise DIFFERENT schemas (integer bounds, types, enums, required here and optional there) "
+        "and a required/optional mix with 0, 1 or several optional parameters at every location (corpus shared_*.json + random); a systematic grid of the four bounded keyword pairs x zero/equal bound combinations x nestings; "
         "anyOf/oneOf over integer branches under positive and negative generation; "
         "non-trivial = at least one bound / at least 3 cases; distinct by canonical JSON"
     )
@@ -1879,6 +2217,7 @@ def run(chk: core.Check):
     stage_lengths(chk, 400 if quick else 5000)
     stage_sizes(chk, 250 if quick else 2500)
     stage_cases(chk, (180 if quick else 2300) * (k if quick else 1))
+    stage_shared_names(chk, (24 if quick else 250) * (k if quick else 1))
     # a correspondence stage disagreed: the property oracle on the real code at those inputs and at their neighbours
     stage_tie_oracle(chk, max_inputs=24 if quick else 120, max_schemas=700 if quick else 6000)
     stage_bounds(chk, thorough=not quick)
